@@ -135,6 +135,7 @@ func c01(r *core.Report) {
 	c01Length(r)
 	c01Unsigned(r)
 	c01NotAny(r)
+	c01Builders(r)
 
 	// ---------------- C01.cmp
 	r.RunRule("C01.cmp", "keyword <-> comparison table: each bound keyword's failure site is guarded by exactly the negation of the JSON-Schema draft-4 relation between the value-derived operand and the operand derived from that keyword's Schema field (operand roles by dependency roots, not by name); exclusive bounds additionally guarded by their flag; uniqueItems by flag and checker(value); multipleOf tests value / bound; required tests key absence in value", 13, func() {
